@@ -1,5 +1,6 @@
 import Driver.Wire
 import Driver.Spec
+import Driver.Tools
 /-
   csmodel: the executable face of the Lean model.  One request per line on stdin, one reply line
   per request on stdout.  Pure function of its input.
@@ -16,6 +17,7 @@ def respond (line : String) : String :=
     | "E" :: args => cmdE (" ".intercalate args :: rest)
     | "D" :: args => cmdD (" ".intercalate args :: rest)
     | "S" :: args => cmdS args
+    | "T" :: args => cmdT args
     | _ => "bad"
 
 partial def loop (hin hout : IO.FS.Stream) : IO Unit := do
